@@ -85,7 +85,9 @@ T = {
          "pathspec's range notation [...] is outside Glob.lean (reported as unsupported, skipped); Python's re engine is modelled by a 7-constructor matcher.",
          "Lean 4 proof (permutation invariance; gitignore rules over a model of pathspec) + differential correspondence with imposed listing orders"),
  'C16': ("C16_precedence/first_wins/default/type_rejected/filters/outdir_*, C16_filters_any_source_rejected (the union option is type-checked in EVERY source, "
-         "resolveMain): CMinx's decision logic stated outright. PARTIAL by nature: confuse/argparse/YAML are "
+         "resolveMain); C16Cli.lean (12): the command line as the highest-priority source — a given -o/-r/-p/-e wins over every file, an absent flag leaves the "
+         "lower sources visible (-r is never False), an empty value is a value, -e comes first in the union, option-like values and split input paths are usage "
+         "errors (parseArgv + cliSource, compared with the real parse_args / set_args on random command lines): CMinx's decision logic stated outright. PARTIAL by nature: confuse/argparse/YAML are "
          "not modelled; the tie is the EXHAUSTIVE enumeration of option x subset of sources x wrong-typed values against the real main().",
          "K6 (mapping accepted for rst.headers) is an open known finding.", "Lean 4 proof of decision logic + exhaustive enumeration of the finite configuration space"),
  'C17': ("C17_history (files generated for one input are the same alone and inside any longer run), location/cwd are not inputs of the model, C15_order for listing "
@@ -93,10 +95,13 @@ T = {
          "runs, longer runs, PYTHONHASHSEED children, children under other locales/encodings, time zones, terminal sizes and umasks).", "K7 (patterns match absolute paths above the input) is an open known finding.",
          "Lean 4 proof (history independence) + differential variants on the real code"),
  'C18': ("C18_none (no write without output directory), C18_special_missing (a path that does not exist or is no regular file/directory writes and prints nothing), C18_stdout (stdout = pages of the -o run, in order, each + two newlines), C18_same_pages. 'Inside the output "
-         "directory' is by construction in the model; on the real code it is a sandbox snapshot (path, sha256) before/after.", "open()/makedirs trusted.",
+         "directory' is by construction in the model; on the real code it is a sandbox snapshot (path, sha256) before/after.", "open()/makedirs trusted. K9 (confuse creates the per-user configuration directory) is an open known finding.",
          "Lean 4 proof + sandbox snapshots of the real code"),
- 'C19': ("C19_verbatim/argv/recursive/equiv/fatal over genArgv + CMake list flattening; C19_K5_counterexample. PARTIAL by nature: CMake's evaluation and "
-         "execute_process are trusted; tied by real `cmake -P` runs (argv recorder, working-tree CMinx vs direct CLI, failing child).", "K5 open known finding.",
+ 'C19': ("C19_verbatim/argv/recursive/equiv/equiv_accepted/fatal over genArgv + CMake list flattening + parseArgv (main's argument parser as argparse behaves: "
+         "exact option strings, option-like values rejected, one contiguous run of input paths); C19_positional_extra_rejected/_second_input; "
+         "C19_K5_counterexample. PARTIAL by nature: CMake's evaluation and execute_process are trusted; tied by real `cmake -P` runs (argv recorder, the "
+         "working-tree CMinx started exactly like the installed console script vs direct CLI, failing child, histories of calls from one build directory) and "
+         "by comparing parseArgv with the real parser on random command lines.", "K5 open known finding; abbreviated/attached/bundled options are outside parseArgv (reported as unsupported).",
          "Lean 4 proof of the argument-vector logic + real cmake -P runs"),
  'C20': ("80 theorems. C20.lean (40): frame/reframe, per-line indentation of paragraphs/fields/list items/options/headings, C20_subtree (an element inside d "
          "directives is rendered at depth d), added_at_depth for every API call, options-first for arbitrary interleavings, insertion order, clear. C20Full.lean / "
